@@ -128,6 +128,12 @@ class WApp:
             self.pending_gets -= 1
             if rec in self.open_gets:
                 self.open_gets.remove(rec)
+            if getattr(self, "cancel_in_callback", 0) > 0 and any(not r_[1] for r_ in self.open_gets):
+                # "this record says nothing more follows": a later read that is still outstanding is cancelled from
+                # inside the callback of an earlier one
+                self.cancel_in_callback -= 1
+                self.cancelled_in_callback = getattr(self, "cancelled_in_callback", 0) + 1
+                self.give_up_one_get()
             self._ev("msg", m)
 
         def bad(f):
